@@ -289,6 +289,8 @@ def follow(G, entry, hier: Hier, kind: str, decisions) -> List[str]:
     o, pos, env = run(pos, env)
     while o is not None:
         out.append(o)
+        if len(out) > 5000:
+            raise WalkFail("walk/livelock", "more than 5000 original blocks visited without needing a decision")
         blk = W.block(pos)
         jts = blk._jump_targets
         if not G[o]:
